@@ -154,20 +154,22 @@ func triggers(kind string, calls []int, dur time.Duration, mode int) Scenario {
 		} else {
 			hx.QuiesceNow()
 		}
-		for _, c := range callSeqs {
-			ok := false
-			for i, s := range l.starts {
-				if s > c && i < len(l.ends) {
-					ok = true
+		hx.Atomically(func() {
+			for _, c := range callSeqs {
+				ok := false
+				for i, s := range l.starts {
+					if s > c && i < len(l.ends) {
+						ok = true
+					}
+				}
+				if !ok {
+					hx.Fail("trigger-lost", "a trigger call (event %d) is not followed by a complete run of f that began after it; runs started at events %v, ended at %v", c, l.starts, l.ends)
 				}
 			}
-			if !ok {
-				hx.Fail("trigger-lost", "a trigger call (event %d) is not followed by a complete run of f that began after it; runs started at events %v, ended at %v", c, l.starts, l.ends)
+			if kind == "Trigger" && len(l.starts) > len(callSeqs) {
+				hx.Fail("more-runs-than-triggers", "%d trigger calls, %d runs", len(callSeqs), len(l.starts))
 			}
-		}
-		if kind == "Trigger" && len(l.starts) > len(callSeqs) {
-			hx.Fail("more-runs-than-triggers", "%d trigger calls, %d runs", len(callSeqs), len(l.starts))
-		}
+		})
 		g.StopAndWait()
 		hx.Atomically(func() { stopped = true })
 		hx.Outcome("calls=%d runs=%d", len(callSeqs), len(l.starts))
